@@ -4,9 +4,9 @@
 # usage: tools/regress_parallel.sh N [glob]      e.g.  tools/regress_parallel.sh 3 'C0[1-5]*'
 set -e
 N=${1:-3}; GLOB=${2:-'C*'}
-mkdir -p /tmp/regr
+BASE=${REGR_BASE:-/tmp/regr}; mkdir -p $BASE
 for k in $(seq 0 $((N-1))); do
-  D=/tmp/regr/c$k
+  D=$BASE/c$k
   rm -rf $D; mkdir -p $D
   rsync -a --exclude .git --exclude build/tmp /verif/ $D/verif/ || true
   rsync -a --exclude target /repo/ $D/repo/ || true
@@ -28,8 +28,8 @@ for d in seeds:
     except Exception:
         out[name] = {"error": r[-300:]}
     print(name, out[name].get("exit"), (out[name].get("what") or out[name].get("error") or "")[:90], flush=True)
-    json.dump(out, open("/tmp/regr/results-$k.json", "w"), indent=1)
+    json.dump(out, open("$BASE/results-$k.json", "w"), indent=1)
 PY
-  (cd $D/verif && python3 $D/run.py > /tmp/regr/log-$k.txt 2>&1 &)
+  (cd $D/verif && python3 $D/run.py > $BASE/log-$k.txt 2>&1 &)
 done
 echo started $N copies
